@@ -870,11 +870,12 @@ func runCase(c *caseIn, r *rng.R) (res result) {
 				res.outages++
 				emit("ELinkDown false", 0)
 				// the resume request fails when the connection notices; the stream is then cancelled
-				probe := e.did(1)
 				if !broker.WaitFor(wd, func() bool {
+					// closedness without writing: Flush of a closed stream fails at once; while the stream is
+					// resuming there is no flush loop and the call ends with its context
 					ctx, cancel := context.WithTimeout(context.Background(), time.Millisecond)
 					defer cancel()
-					return errors.Is(up.WriteDataPoints(ctx, probe), iscperrors.ErrStreamClosed)
+					return errors.Is(up.Flush(ctx), iscperrors.ErrStreamClosed)
 				}) {
 					return bad("after a cut resume exchange the stream neither resumed nor closed within the watchdog")
 				}
@@ -1000,13 +1001,22 @@ func runCase(c *caseIn, r *rng.R) (res result) {
 		}
 	}
 	time.Sleep(2 * time.Millisecond)
-	// ---- final observables
+	// ---- final observables: everything the broker and the storage have seen is FROZEN here, before
+	// the closedness probe, so that nothing the harness does afterwards can enter the observation
 	final := e.snapshot(up)
 	storedF := listStored()
+	e.mu.Lock()
+	rxFrozen := append([]rxT(nil), e.rx...)
+	closeReqFrozen := append([][2]uint64(nil), e.closeReq...)
+	nincFrozen := e.ninc
+	e.mu.Unlock()
+	// closedness probe without writing anything: Flush of a closed stream fails with the stream-closed
+	// error at once; on an open stream it is a no-op here (the buffer was flushed) or blocks until
+	// its short context ends (stream resuming)
 	probeErr, _ := call(func() error {
 		ctx, cancel := context.WithTimeout(context.Background(), 20*time.Millisecond)
 		defer cancel()
-		return up.WriteDataPoints(ctx, e.did(1))
+		return up.Flush(ctx)
 	})
 	closed := errors.Is(probeErr, iscperrors.ErrStreamClosed)
 	broker.WaitFor(100*time.Millisecond, func() bool { e.mu.Lock(); defer e.mu.Unlock(); return !closed || len(e.closedEv) > 0 })
@@ -1017,7 +1027,7 @@ func runCase(c *caseIn, r *rng.R) (res result) {
 	bySeq := map[uint32][]string{}
 	rxInc := map[int][]string{}
 	strippedRx := false
-	for _, x := range e.rx {
+	for _, x := range rxFrozen {
 		dup := false
 		for _, y := range bySeq[x.seq] {
 			if y == x.content {
@@ -1029,7 +1039,7 @@ func runCase(c *caseIn, r *rng.R) (res result) {
 		}
 		rxInc[x.inc] = append(rxInc[x.inc], fmt.Sprint(x.seq))
 	}
-	for _, x := range e.rx {
+	for _, x := range rxFrozen {
 		if x.stripped {
 			strippedRx = true
 		}
@@ -1044,14 +1054,14 @@ func runCase(c *caseIn, r *rng.R) (res result) {
 		ledT = append(ledT, fmt.Sprintf("(%d,%s)", q, coqfmt.List(bySeq[uint32(q)])))
 	}
 	var rxT_ []string
-	for i := 0; i < e.ninc; i++ {
+	for i := 0; i < nincFrozen; i++ {
 		rxT_ = append(rxT_, fmt.Sprintf("(%d,%s)", i, coqfmt.List(rxInc[i])))
 	}
 	var stT, clT, ceT, rev0T []string
 	for _, k := range storedF {
 		stT = append(stT, fmt.Sprint(k))
 	}
-	for _, x := range e.closeReq {
+	for _, x := range closeReqFrozen {
 		clT = append(clT, fmt.Sprintf("(%d,%d)", x[0], x[1]))
 	}
 	for _, x := range e.closedEv {
@@ -1080,7 +1090,7 @@ func runCase(c *caseIn, r *rng.R) (res result) {
 	if !idsOK {
 		res.sig = "C02:resume-request-with-foreign-stream-id"
 	}
-	res.observed = map[string]interface{}{"ledger": ledT, "stored": storedF, "closereqs": e.closeReq, "closed_events": e.closedEv,
+	res.observed = map[string]interface{}{"ledger": ledT, "stored": storedF, "closereqs": closeReqFrozen, "closed_events": e.closedEv,
 		"closed": closed, "resume_requests": len(e.resumeIDs), "resume_ids_ok": idsOK, "events": evT, "rets": retT,
 		"final": fmt.Sprintf("seq=%d total=%d buf=%s", final.seq, final.total, groupsTerm(final.buf))}
 	return
